@@ -215,8 +215,7 @@ pub fn c08(args: &Args, rep: &mut Report) {
                 }
                 ctl(|c| {
                     c.assign.clear();
-                    c.seen.clear();
-                    c.paths.clear();
+                    c.reset_run();
                 });
                 let r0 = run_scn(&s, &data, true);
                 let nodes: Vec<String> = ctl(|c| {
@@ -238,8 +237,7 @@ pub fn c08(args: &Args, rep: &mut Report) {
                     let assign: HashMap<String, Mode> = nodes.iter().enumerate().map(|(i, n)| (n.clone(), if m & (1 << i) != 0 { Mode::RL } else { Mode::LR })).collect();
                     ctl(|c| {
                         c.assign = assign.clone();
-                        c.seen.clear();
-                        c.paths.clear();
+                        c.reset_run();
                     });
                     let r = run_scn(&s, &data, true);
                     rep.inc("evaluations");
@@ -257,11 +255,10 @@ pub fn c08(args: &Args, rep: &mut Report) {
                 for set in subsets(k, if k > 3 && !t { 1 } else if t { 3 } else { 2 }) {
                     let assign: HashMap<String, Mode> = nodes.iter().enumerate().map(|(i, n)| (n.clone(), if set.contains(&i) { Mode::Conc } else { Mode::LR })).collect();
                     let (s2, d2, e2, a2) = (s.clone(), data.clone(), exp.clone(), assign.clone());
-                    let n = explore(Some(bound), 20_000, move || {
+                    let n = explore(Some(if set.len() >= 3 { 2 } else { bound }), 20_000, move || {
                         ctl(|c| {
                             c.assign = a2.clone();
-                            c.seen.clear();
-                            c.paths.clear();
+                            c.reset_run();
                         });
                         let (s3, d3, e3, a3) = (s2.clone(), d2.clone(), e2.clone(), a2.clone());
                         let w = spawn_big(move || {
@@ -283,8 +280,7 @@ pub fn c08(args: &Args, rep: &mut Report) {
     }
     ctl(|c| {
         c.assign.clear();
-        c.seen.clear();
-        c.paths.clear();
+        c.reset_run();
     });
     tsan_pass(rep);
     rep.sample(json!({"side": "c", "entry": "blake3_hasher_update_tbb", "seam": "c/blake3_tbb.cpp via stand-in parallel_invoke", "scheduling_points": ["parallel_invoke entry/exit", "blake3_hash_many / compress_in_place as called from blake3.c"]}));
@@ -380,7 +376,7 @@ fn c_sequence(which: usize, data: &[u8]) -> Vec<u8> {
             _ => {
                 let ctx = b"vsched c context";
                 blake3_hasher_init_derive_key_raw(&mut h, ctx.as_ptr() as *const _, ctx.len());
-                blake3_hasher_update(&mut h, data[7..].as_ptr() as *const _, 2049);
+                blake3_hasher_update(&mut h, data[7..].as_ptr() as *const _, 17 * 1024 + 1);
                 blake3_hasher_finalize_seek(&h, 1, out.as_mut_ptr(), 150);
             }
         }
@@ -394,7 +390,7 @@ fn c_spec(which: usize, data: &[u8]) -> Vec<u8> {
         4 => b3spec::xof(&b3spec::Mode::keyed(vcommon::TEST_KEY), &data[..100], 63, 150),
         0 => b3spec::xof(&b3spec::Mode::hash(), &data[..9000], 0, 150),
         1 => b3spec::xof(&b3spec::Mode::keyed(vcommon::TEST_KEY), &data[100..6100], 64 * (1u64 << 32) - 64, 150),
-        _ => b3spec::xof(&b3spec::Mode::derive(b"vsched c context"), &data[7..2056], 1, 150),
+        _ => b3spec::xof(&b3spec::Mode::derive(b"vsched c context"), &data[7..7 + 17 * 1024 + 1], 1, 150),
     }
 }
 
